@@ -1,4 +1,5 @@
 //! Shared generators (proptest strategies).
+pub mod annot;
 pub mod faultsave;
 pub mod style;
 pub mod text;
